@@ -96,6 +96,44 @@ func init() {
 		Rule:   "short histories (1-3 clients x <=12 ops, tiny memtables pre-filled so that rotation+flush happen inside the history) run under the scheduler; EVERY persistence event of the history (mmap create/write/msync/truncate/delete, fd write/fsync/rename/remove, dirsync; up to 400 per history) is a kill-9 image (directory as the page cache holds it); each image is re-opened with the real code and checked: Open succeeds, no version that was never written, visible state == some commit-ts-order prefix containing every commit acknowledged before the event, structure (C14), new commit gets a higher ts (C11). evaluations = histories; distinct = distinct interleavings of histories with >=2 images; the number of verified images is in probes",
 		Assume: []string{"kill model: everything written through mmap or write(2) before the crash point survives; identical consecutive directory states are verified once"},
 	})
+	// C12 flush/compaction never change reads >= watermark
+	p12 := profT("K-C12")
+	p12.Compaction = true
+	p12.MaxOps = 30
+	p12.MaxKeys = 10
+	p12.WDel = 4
+	p12.WLongTxn = 4
+	p12.WIter = 3
+	p12.Groups = [][]string{nil, {"client", "compactor", "flusher", "subcompact", "builder"}, {"client", "compactor", "flusher", "subcompact", "builder", "txn", "writer", "doWrites"}}
+	register(&Scenario{Prop: "C12", Family: "K", Level: "exploration", Profile: p12,
+		Gen:  func(t *rapid.T) *Case { return GenCase(t, p12) },
+		Rule: "clients (incl. long-running transactions opened before compactions) read and write <=10 colliding keys on a DB pre-filled to 1-12 memtables worth of versions and tombstones, with 2-4 real compactor goroutines (tiny tables/levels so that L0->Lbase, L0->L0, Ln->Ln+1, split sub-compactions and L0 stalls occur), every compaction phase (pick, build, MANIFEST, replace, delete) a schedule point and seeded clock jumps (50ms..61min) that age tables; every read (Get + iterators) must equal the never-forgetting MVCC model. non-trivial = run in which >=1 compaction completed",
+	})
+	// C13 retention
+	p13 := profT("K-C13")
+	p13.Compaction = true
+	p13.MaxOps = 30
+	p13.MaxKeys = 6
+	p13.WDel = 3
+	p13.WIter = 6
+	p13.Discard = true
+	p13.TTL = true
+	p13.WLongTxn = 4
+	p13.Groups = p12.Groups
+	register(&Scenario{Prop: "C13", Family: "K", Level: "exploration", Profile: p13,
+		Gen: func(t *rapid.T) *Case {
+			c := GenCase(t, p13)
+			for ci := range c.Clients {
+				for oi := range c.Clients[ci] {
+					if it := c.Clients[ci][oi].It; it != nil && oi%2 == 0 {
+						it.AllV = it.KeyIter < 0
+					}
+				}
+			}
+			return c
+		},
+		Rule: "as C12 with NumVersionsToKeep in {1,2,3,inf}, WithDiscard, TTL and deletes; AllVersions/NewKeyIterator results must (a) be a subsequence of the written versions and (b) contain every version above the highest discard watermark any compaction used so far plus, at or below it, the newest NumVersionsToKeep versions per key cut at the first delete/expired/discard-earlier entry. non-trivial = run with >=1 completed compaction",
+	})
 	// C04 own writes
 	p4 := profT("T-C04")
 	p4.WIter = 5
